@@ -21,6 +21,26 @@ class Crash(Unknown):
     """The interpreted statement indexes a concrete container with a key / position it does not have: on this path the real code raises."""
 
 
+class Lam:
+    """a lambda expression met during interpretation, with the environment it closes over"""
+    def __init__(self, node, env):
+        self.node = node
+        self.env = env
+
+    def __deepcopy__(self, memo):
+        return self
+
+
+class FuncRef:
+    """a reference to a repository function obtained by attribute access (cls.helper passed as a callback)"""
+    def __init__(self, func, bound):
+        self.func = func
+        self.bound = bound
+
+    def __deepcopy__(self, memo):
+        return self
+
+
 class Interp:
     def __init__(self, call_hook=None, effect_names=(), budget=20000, resolver=None, depth=0, store_effects=(), attr_hook=None, try_normal_path=False, with_targets=False):
         """call_hook(call_node, args, env) -> (True, value) | None.  effect_names: callee names whose calls are
@@ -75,6 +95,13 @@ class Interp:
                         else:
                             out.append(self.value(n.elt, e2))
                 return (True, set(out) if isinstance(n, ast.SetComp) else out)
+            if isinstance(n, ast.Lambda):
+                return (True, Lam(n, env))
+            if self.resolver is not None and isinstance(n, ast.Attribute) and isinstance(n.ctx, ast.Load) and unparse(n) not in env and isinstance(n.value, ast.Name) and not isinstance(getattr(n, '_parent', None), ast.Call):
+                callee = self.resolver(ast.Call(func=n, args=[], keywords=[]))
+                if callee is not None:
+                    static = any(isinstance(d, ast.Name) and d.id == 'staticmethod' for d in callee.decorator_list)
+                    return (True, FuncRef(callee, not static))
             if isinstance(n, ast.Dict):
                 d = {}
                 for k, v in zip(n.keys, n.values):
@@ -132,6 +159,33 @@ class Interp:
             r = self.call_hook(n, env, self)
             if r is not None:
                 return r
+        if isinstance(fn, ast.Name) and isinstance(env.get(fn.id), Lam) and not n.keywords:
+            lam = env[fn.id]
+            ps = [a.arg for a in lam.node.args.args]
+            if len(ps) == len(n.args):
+                e2 = dict(lam.env)
+                for p_, a_ in zip(ps, n.args):
+                    e2[p_] = self.value(a_, env)
+                return (True, self.value(lam.node.body, e2))
+        if isinstance(fn, ast.Name) and isinstance(env.get(fn.id), FuncRef) and self.depth < 3:
+            ref = env[fn.id]
+            fake = ast.Call(func=ast.Attribute(value=ast.Name(id='cls', ctx=ast.Load()), attr=ref.func.name, ctx=ast.Load()) if ref.bound else ast.Name(id=ref.func.name, ctx=ast.Load()), args=n.args, keywords=n.keywords)
+            return (True, self._inline(fake, ref.func, env))
+        if isinstance(fn, ast.Name) and fn.id in ('ord', 'chr') and len(n.args) == 1:
+            v = self.value(n.args[0], env)
+            if fn.id == 'ord' and isinstance(v, (str, bytes)) and len(v) == 1:
+                return (True, ord(v))
+            if fn.id == 'chr' and isinstance(v, int):
+                return (True, chr(v))
+        if isinstance(fn, ast.Name) and fn.id == 'bytearray' and not n.args:
+            return (True, [])          # a growing byte string is modelled as the list of its byte values
+        if isinstance(fn, ast.Attribute) and fn.attr == 'decode' and n.args:
+            try:
+                base = self.value(fn.value, env)
+            except Unknown:
+                base = None
+            if isinstance(base, list) and all(isinstance(x, int) and 0 <= x < 256 for x in base):
+                return (True, bytes(base).decode(*[self.value(a, env) for a in n.args]))
         if self.resolver is not None and self.depth < 3:
             callee = self.resolver(n)
             if callee is not None:
@@ -256,7 +310,7 @@ class Interp:
             e2 = {k: v for k, v in env.items() if isinstance(k, str) and (k == 'self' or k.startswith('self.') or (k[:1].isupper() and '.' in k))}
         defaults = callee.args.defaults
         for p, d in zip(params[len(params) - len(defaults):], defaults):
-            e2[p] = self.value(d, {})
+            e2[p] = self.value(d, {})         # (a lambda default becomes a Lam closing over the empty environment)
         if len(call.args) > len(params):
             raise Unknown('call of %s with more arguments than parameters' % callee.name)
         for p, a in zip(params, call.args):
@@ -593,6 +647,8 @@ class Interp:
             except Unknown:
                 seq = Opaque()
             if isinstance(seq, dict) or type(seq).__name__ in ('dict_items', 'dict_keys', 'dict_values'):
+                seq = list(seq)
+            if isinstance(seq, str) and len(seq) <= 256:
                 seq = list(seq)
             if not isinstance(seq, (list, tuple, set)):
                 if self._effectful(ast.Module(body=st.body + st.orelse, type_ignores=[]), e):
